@@ -74,6 +74,6 @@ def _b(case):
 
 SUBCHECKS = [
     Sub("law", check, strategy=lambda tier: case_strategy(),
-        quick=3000, thorough=80000,
+        quick=4000, thorough=200000,
         min_share={"geom:axis-z": 0.04, "geom:diagonal": 0.04, "geom:mixed": 0.04, "s!=1": 0.3, "after-other-call": 0.3}),
 ]
